@@ -1,11 +1,72 @@
 /-
-  C16 — property theorems (see DESIGN.md §6 C16).  Helper lemmas live in Proofs/.
+  C16 — incomplete input is told apart from malformed input.
+
+  Stated over token sequences (the scanner lemmas that brackets inside strings, raw strings and
+  comments never become tokens are part of C06/C19).  "Well-formed" is the reader's own acceptance
+  of a complete token sequence: `readForm` consumes it entirely.  The independent grammar checker of
+  the `cut` engine covers the other reading of "well-formed" on every run.
+  Property theorems only (helper lemmas live in Proofs/Reader.lean).
 -/
 import LispModel.Read
-import LispModel.Print
-import LispModel.Preamble
-import LispModel.Spec.Readable
+import LispModel.Proofs.Reader
 namespace LispModel.Props.C16
-open LispModel
+open LispModel LispModel.Read LispModel.Scan
+
+/-- a token spelled like a closing bracket -/
+def isCloser (t : Token) : Bool :=
+  tokStr t == ")" || tokStr t == "]" || tokStr t == "}"
+
+/-- the reader accepts `toks` as exactly one expression -/
+def Accepts (cfg : Cfg) (toks : List Token) : Prop :=
+  ∃ v, readForm (2 * toks.length + 2) cfg toks = .ok (v, [])
+
+/-- If appending closing brackets `c :: cs` to `toks` gives one well-formed expression, then `toks`
+    alone is rejected with "expected '<c>', got EOF", `c` being the closer of the innermost open
+    bracket (the first one that had to be appended) — and the REPL keeps reading lines. -/
+theorem incomplete_reports_innermost_closer (cfg : Cfg) (toks : List Token) (c : Token) (cs : List Token)
+    (hc : isCloser c = true) (hcs : ∀ t ∈ cs, isCloser t = true)
+    (hwf : Accepts cfg (toks ++ c :: cs)) :
+    readForm (2 * toks.length + 2) cfg toks = .error (.eof (tokStr c)) ∧ multiLine (.eof (tokStr c)) = true :=
+  Proofs.Reader.incomplete_reports_innermost_closer cfg toks c cs hc hcs hwf
+
+/-- A complete expression is never reported as incomplete (nor as any other error). -/
+theorem complete_never_incomplete (cfg : Cfg) (toks : List Token) (h : Accepts cfg toks) :
+    ∀ e, readForm (2 * toks.length + 2) cfg toks ≠ .error e := by
+  intro e he; obtain ⟨v, hv⟩ := h; rw [hv] at he; cases he
+
+/-- A surplus closing bracket after a complete expression is rejected, with an error that is not
+    the "incomplete" class (`Read_str` reports "not all tokens where parsed"). -/
+theorem surplus_closer_rejected (cfg : Cfg) (toks : List Token) (c : Token)
+    (h : Accepts cfg toks) :
+    ∃ v r, readForm (2 * (toks ++ [c]).length + 2) cfg (toks ++ [c]) = .ok (v, r) ∧ r ≠ [] :=
+  Proofs.Reader.surplus_token_left_over cfg toks c h
+
+/-- A closing bracket with nothing open is rejected with "unexpected '<c>'", which the REPL does not
+    take for incomplete input. -/
+theorem unmatched_closer_rejected (cfg : Cfg) (c : Token) (rest : List Token) (fuel : Nat)
+    (hc : tokStr c = ")" ∨ tokStr c = "]" ∨ tokStr c = "}") :
+    readForm (fuel + 1) cfg (c :: rest) = .error (.unexpected (tokStr c)) ∧
+    multiLine (.unexpected (tokStr c)) = false :=
+  Proofs.Reader.unmatched_closer_rejected cfg c rest fuel hc
+
+/-- More than one expression: the first is read, the rest is left over (`Read_str` ⇒ "not all
+    tokens where parsed"), never silently accepted or truncated. -/
+theorem two_forms_rejected (cfg : Cfg) (t1 t2 : List Token) (h1 : Accepts cfg t1) (h2 : t2 ≠ []) :
+    ∃ v, readForm (2 * (t1 ++ t2).length + 2) cfg (t1 ++ t2) = .ok (v, t2) :=
+  Proofs.Reader.two_forms_left_over cfg t1 t2 h1 h2
+
+/-- `Read_str` level: whatever is left over after the first expression is an error of class
+    `trailing`, which is not the incomplete class. -/
+theorem readStr_leftover_is_trailing (cfg : Cfg) (bytes : List UInt8) (toks : List Token) (v : Val)
+    (t : Token) (r : List Token)
+    (ht : Scan.tokenize bytes = .ok toks) (hne : toks ≠ [])
+    (hr : readForm (2 * toks.length + 2) { cfg with module := if cfg.module.isNone then modulePrefix bytes else cfg.module } toks = .ok (v, t :: r)) :
+    readStr cfg bytes = .error .trailing ∧ multiLine .trailing = false :=
+  Proofs.Reader.readStr_leftover_is_trailing cfg bytes toks v t r ht hne hr
+
+/-- The REPL's verdict is "incomplete" exactly on the `expected '<closer>', got EOF` class. -/
+theorem multiLine_iff_eof_class (e : RErr) :
+    multiLine e = true ↔ (e = .eof ")" ∨ e = .eof "]" ∨ e = .eof "}" ∨ e = .eof "»" ∨ e = .rawEof ∨ e = .eof "¬") :=
+  Proofs.Reader.multiLine_iff_eof_class e
 
 end LispModel.Props.C16
